@@ -698,3 +698,10 @@ func ReadsCMapByLines(section string) int {
 	}
 	return n
 }
+
+// PositionForTokens violates R13.10: the ratio is whatever the configuration holds, zero included.
+type SizeSettings struct{ TokensPerChar float64 }
+
+func PositionForTokens(cfg *SizeSettings, tokens int) int {
+	return int(float64(tokens) / cfg.TokensPerChar)
+}
